@@ -22,7 +22,7 @@ def run(tier):
     events = {e["id"]: e for e in common.read_ndjson(log)}
     for eid, clause in bad:
         e = events[eid]
-        sig = "%s input=%s" % (e["group"], e["smiles"])
+        sig = "%s%s input=%s" % (e["group"], "" if e.get("via", "default") == "default" else "/" + e["via"], e["smiles"])
         rep.fail(clause, sig, group="%s/%s" % (clause, e["group"]),
                  detail={k: e[k] for k in ("smiles", "out", "raised", "out2", "raised2", "in_comp", "out_comp", "in_q", "out_q")},
                  replay={"smiles": e["smiles"]})
